@@ -7,6 +7,8 @@ A property module `harness/props/Cxx.py` provides:
     ID                : "Cxx"
     LEAN_MODULE       : "UralModel.Props.Cxx"        (lake target holding the theorems)
     THEOREMS          : [fully qualified theorem names that must exist, axioms audited]
+    EXTRA_IMPORTS     : optional, further Lean modules holding listed theorems (built and
+                        imported by the audit next to LEAN_MODULE)
     TABLE_OBLIGATIONS : [names of `decide`-style obligations over regenerated tables] (subset
                         of what LEAN_MODULE proves; listed separately for the evidence)
     RULE              : text, how cases are generated and what "non-trivial" means
@@ -414,7 +416,7 @@ def run_check(pid, tier="quick", seed=0, replay=None):
         tr = {"digest": None, "changed": []}
 
     # 2. prove: build the property's theorems and the driver, audit axioms
-    ok, out = lake_build([prop.LEAN_MODULE, "driver"])
+    ok, out = lake_build([prop.LEAN_MODULE] + list(getattr(prop, "EXTRA_IMPORTS", [])) + ["driver"])
     build_log = out[-4000:]
     audit_res = {}
     if not ok:
